@@ -46,7 +46,9 @@ pub fn gen_file_content(t: &mut Tape) -> Vec<u8> {
 }
 
 pub fn gen_csv_content(t: &mut Tape, headers: bool) -> Vec<u8> {
-    let n = [0usize, 1, 2, 5, 40, 200][t.draw(6) as usize];
+    // up to a few buffers' worth of bytes per replica (the reader's buffer is 8 KiB)
+    let n = [0usize, 1, 2, 5, 40, 200, 1500, 4000][t.draw(8) as usize];
+    let wide = n >= 40 && t.draw(3) == 2;
     let crlf = t.draw(4) == 3;
     let nl = if crlf { "\r\n" } else { "\n" };
     let final_newline = t.draw(3) != 0;
@@ -56,7 +58,10 @@ pub fn gen_csv_content(t: &mut Tape, headers: bool) -> Vec<u8> {
         s.push_str(nl);
     }
     for i in 0..n {
-        let a: String = gen_word(t, 6).chars().filter(|c| *c != ' ').collect();
+        let mut a: String = gen_word(t, 6).chars().filter(|c| *c != ' ').collect();
+        if wide && i % 7 == 3 {
+            a.push_str(&"w".repeat(150));
+        }
         let b = format!("{}", t.draw(100000));
         s.push_str(&format!("{}{},{}", "r", a, b));
         if i + 1 < n || final_newline {
